@@ -1539,6 +1539,24 @@ class Interp:
             if a0 is None:
                 return ("list", [])
             items = self.iterate(a0)
+            if items is not None and name == "reversed":
+                return ("list", list(reversed(items)))
+            if items is not None and name == "sorted":
+                if all(x[0] == "c" for x in items) and not kwargs:
+                    try:
+                        return ("list", [("c", v) for v in sorted(x[1] for x in items)])
+                    except TypeError:
+                        pass
+                if len(items) <= 1:
+                    return ("list", items)
+                return ("fn", "sorted", list(items))        # an order the interpreter does not know
+            if items is not None and name == "set":
+                seen_, out_ = [], []
+                for x in items:
+                    if x not in seen_:
+                        seen_.append(x)
+                        out_.append(x)
+                return ("list", out_)
             if items is not None:
                 return ("list", items)
             if a0[0] in ("list", "many"):
